@@ -41,6 +41,17 @@ func ZZ_C09_gate() {
 	deletePresent, deleteAge := zzAgeCond(rsNew, "podDeletion", datadoghqv1alpha1.ConditionTypePodDeletion)
 	// one outdated available pod on node0 (to delete), node1 lacks a pod (to create)
 	c.Pods = append(c.Pods, zzPod("pod0", zzNodeName(0), zzOldRS, zzHashOld, 0, corev1.PodRunning, true, nondet.Base().Add(-time.Hour)))
+	// the user may just have paused or frozen the roll-out (annotation on the ExtendedDaemonSet the
+	// replica set's conditions do not reflect yet): the spacing of syncs does not depend on it
+	paused, frozen := false, false
+	switch nondet.String("justAnnotated", "none", "rolling-update-paused", "rollout-frozen") {
+	case "rolling-update-paused":
+		ds.Annotations[datadoghqv1alpha1.ExtendedDaemonSetRollingUpdatePausedAnnotationKey] = "true"
+		paused = true
+	case "rollout-frozen":
+		ds.Annotations[datadoghqv1alpha1.ExtendedDaemonSetRolloutFrozenAnnotationKey] = "true"
+		frozen = true
+	}
 
 	res, err := zzReconcile(zzReconciler(c, false), zzNS, rsNew.Name)
 	nondet.Assert("C09.gate.noerror", err == nil)
@@ -73,15 +84,22 @@ func ZZ_C09_gate() {
 		// pod creations / deletions are themselves spaced by reconcileFrequency
 		if createPresent && createAge < freq {
 			nondet.Assert("C09.gate.create-spaced", c.Count("create", "Pod") == 0)
-		} else {
+		} else if !frozen {
 			nondet.Assert("C09.gate.creates", c.Count("create", "Pod") == 1)
 		}
 		if deletePresent && deleteAge < freq {
 			nondet.Assert("C09.gate.delete-spaced", c.Count("delete", "Pod") == 0)
-		} else {
+		} else if !frozen && !paused {
 			nondet.Assert("C09.gate.deletes", c.Count("delete", "Pod") == 1)
 		}
 		nondet.Assert("C09.gate.status-last", c.Writes()[writes-1].Verb == "status-update")
+	}
+	// the statement itself: a sync that created or deleted pods (it stamped PodCreation / PodDeletion,
+	// and LastFullSync no earlier) is younger than reconcileFrequency => this sync touches no pod
+	recent := (createPresent && createAge < freq) || (deletePresent && deleteAge < freq)
+	consistent := fullPresent && (!createPresent || fullAge <= createAge) && (!deletePresent || fullAge <= deleteAge)
+	if recent && consistent {
+		nondet.Assert("C09.gate.pod-syncs-spaced", c.Count("create", "Pod") == 0 && c.Count("delete", "Pod") == 0)
 	}
 	nondet.Observe("writes", writes)
 	nondet.Reach("C09.gate.closed", gated)
